@@ -85,7 +85,9 @@ Section Inv.
     pi_hoff : forall h y, In h ks -> In y ks -> is_hoff g h = true -> f y = f h -> y = h;
     (* delayed edges keep their place in handoff_edges *)
     pi_tick : forall e, In e (g_edges g) -> hoff_adj e = false -> Model.is_tick T g e = true ->
-                In (e_id e) (ps_hedges st)
+                In (e_id e) (ps_hedges st);
+    (* handoff_edges only ever holds ids of edges of the graph *)
+    pi_hsub : forall x, In x (ps_hedges st) -> In x (map e_id (g_edges g))
   }.
 
   Lemma edge_by_id e e' : In e (g_edges g) -> In e' (g_edges g) -> e_id e = e_id e' -> e = e'.
@@ -111,16 +113,17 @@ Section Inv.
     PInv st f -> In e (g_edges g) -> hoff_adj e = true -> SMInv ks np en s' f ->
     PInv (mkPs s' (ps_colors st) (sremove (e_id e) (ps_hedges st))) f.
   Proof.
-    intros [I M L H K] He Ha I'. constructor; simpl; auto.
+    intros [I M L H K S] He Ha I'. constructor; simpl; auto.
     - intros e' He' Ha' Hn. apply M; auto. intro Hin. apply Hn. apply sremove_In. split; [exact Hin|].
       intro E. assert (e' = e) by (apply edge_by_id; auto). subst. congruence.
     - intros e' He' Ha' Ht. apply sremove_In. split; [apply K; auto|].
       intro E. assert (e' = e) by (apply edge_by_id; auto). subst. congruence.
+    - intros y Hy. apply sremove_In in Hy. apply S. tauto.
   Qed.
 
   Lemma PInv_same_hedges st f s' cm :
     PInv st f -> SMInv ks np en s' f -> PInv (mkPs s' cm (ps_hedges st)) f.
-  Proof. intros [I M L H K] I'. constructor; simpl; auto. Qed.
+  Proof. intros [I M L H K S] I'. constructor; simpl; auto. Qed.
 
   Lemma relabel_rep f u v x : f v = v -> relabel f u v x = if N.eqb (f x) v then f u else f x.
   Proof. intro Fv. unfold relabel. rewrite Fv. reflexivity. Qed.
@@ -134,7 +137,7 @@ Section Inv.
     SMInv ks np en s' (relabel f u v) ->
     PInv (mkPs s' cm (sremove (e_id e) (ps_hedges st))) (relabel f u v).
   Proof.
-    intros [I M L H K] He Ha Ne Hl Huv Fu Fv I'.
+    intros [I M L H K S] He Ha Ne Hl Huv Fu Fv I'.
     destruct (edges_closed e He) as [Ks Kd].
     assert (R : forall x, relabel f u v x = if N.eqb (f x) v then u else f x).
     { intro x. rewrite relabel_rep by exact Fv. rewrite Fu. reflexivity. }
@@ -178,6 +181,7 @@ Section Inv.
       assert (Hne : e_src e <> e_dst e) by (intro Q; rewrite Q in Ne; congruence).
       pose proof (tick_is_enemy e He Ht Hne) as Hen.
       apply (inv_no_enemy_inside _ _ _ _ _ I' _ _ Hen). destruct Rs as [-> ->]. reflexivity.
+    - intros y Hy. apply sremove_In in Hy. apply S. tauto.
   Qed.
 
   (* one pass over the edges: never panics, keeps the invariant, only shrinks handoff_edges, and
@@ -508,7 +512,8 @@ Section AllGraphs.
     { constructor; simpl; auto.
       - intros e He _ Hn. exfalso. apply Hn. apply In_sort_dedup'. apply in_map. exact He.
       - intros x y _ _ E. subst. reflexivity.
-      - intros e He _ _. apply In_sort_dedup'. apply in_map. exact He. }
+      - intros e He _ _. apply In_sort_dedup'. apply in_map. exact He.
+      - intros x Hx. exact (proj1 (In_sort_dedup' _ _) Hx). }
     assert (Hfuel : (length (ps_hedges (mkPs s0 (colors0 g) (sort_dedup (map e_id (g_edges g)))))
                      < S (S (length (g_edges g))))%nat).
     { simpl. pose proof (sort_dedup_length (map e_id (g_edges g))) as HL. rewrite map_length in HL. lia. }
